@@ -425,7 +425,7 @@ class Check:
             for d in r["drift"]:
                 self.notes.append("model drift: " + d)
             for f in r["fails"]:
-                key = (f["case"], tuple(f["rules"]))
+                key = f["case"]
                 if key in seen_cases:
                     continue
                 seen_cases.add(key)
